@@ -2,6 +2,7 @@ import MqttVerif.Driver.Common
 import MqttVerif.Codec.Wf
 import MqttVerif.Codec.Abs
 import MqttVerif.Codec.AccDump
+import MqttVerif.Spec.Placement
 import Std.Data.HashMap
 /-!
 Trace driver for the packet codecs (`T codec …`).
@@ -136,7 +137,18 @@ def compareParse (st : CodecSt) (ln : Nat) (ver pw fh : Nat) (body : List Nat) (
     | m, i =>
       let ms := match m with | .ok _ c => s!"ok consumed={c}" | .err e => s!"err {e.name}" | .panic s => s!"panic {s}"
       let is := match i with | .ok c _ _ _ _ _ => s!"ok consumed={c}" | .err e => s!"err {e}" | .panic => "PANIC"
-      (st, r.mdiff s!"codec.parse.{kind}.outcome" s!"{loc}: model={ms} impl={is}")
+      let r := r.mdiff s!"codec.parse.{kind}.outcome" s!"{loc}: model={ms} impl={is}"
+      -- C03 "a spec-conformant encoding of those field values is parsed back": the input is exactly
+      -- the byte string the independent reference encoder prescribes for the field values the
+      -- specification reads from it, the builders' structural rules hold, and the implementation refuses it
+      let r := match m, i with
+        | .ok p c, .err e =>
+          let frame := fh :: (vbiEnc body.length ++ body)
+          if c = body.length ∧ (Packet.abs p).encode pw = frame ∧ (firstFailing (p.checks pw)).isNone then
+            r.viol s!"C03 rejects_spec_encoding@{kind}" s!"{loc}: these bytes are exactly the specification's encoding of a well-formed {kind} (fields {Acc.render (accFields pw p)}); the implementation refuses them with {e}"
+          else r
+        | _, _ => r
+      (st, r)
 
 def codecP (st : CodecSt) (ln : Nat) (line : String) (r : Report) : CodecSt × Report :=
   let bad := (st, r.mdiff "parse" s!"{st.name} line {ln}: unparsable `{line.take 200}`")
@@ -206,6 +218,48 @@ def codecB (st : CodecSt) (ln : Nat) (line : String) (r : Report) : CodecSt × R
       | _, _, _ => bad
     | _ => bad
   | _ => bad
+
+/-- property ids of a `props:[id:val;id:val;…]` field of an accessor dump -/
+def accPropIds (acc key : String) : List Nat :=
+  match acc.splitOn (key ++ ":[") with
+  | _ :: rest :: _ =>
+    let inner := (rest.splitOn "]").headD ""
+    if inner = "" then [] else (inner.splitOn ";").filterMap fun (it : String) => ((it.splitOn ":").headD "").toNat?
+  | _ => []
+
+/-- `BA <ver> <pw> <fh> acc=<dump>`: the property lists of a packet the library BUILT (builder or
+    rewriting operation), read through its accessors, against the placement / multiplicity
+    table of the specification (`Spec/Placement.lean`, MQTT v5.0 Table 2-4) -/
+def codecBA (st : CodecSt) (ln : Nat) (line : String) (r : Report) : CodecSt × Report :=
+  match words line with
+  | [_, ver, _, fh, accW] =>
+    match ver.toNat?, parseHexByte fh with
+    | some 5, some fhv =>
+      let acc := (accW.drop 4).toString
+      let kind := kindName 5 (fhv / 16)
+      let loc? : Option Spec.Placement.Location := match fhv / 16 with
+        | 1 => some .connect | 2 => some .connack | 3 => some .publish | 4 => some .puback | 5 => some .pubrec
+        | 6 => some .pubrel | 7 => some .pubcomp | 8 => some .subscribe | 9 => some .suback | 10 => some .unsubscribe
+        | 11 => some .unsuback | 14 => some .disconnect | 15 => some .auth | _ => none
+      let check (loc : Spec.Placement.Location) (ids : List Nat) (r : Report) : Report :=
+        ids.eraseDups.foldl (fun (r : Report) (c : Nat) =>
+          match Spec.Placement.PropId.all.find? (fun (q : Spec.Placement.PropId) => q.code = c) with
+          | none => r.viol s!"C18 built_packet_placement@{kind}" s!"{st.name} line {ln}: a built {kind} carries an unknown property identifier {c}"
+          | some q =>
+            let n := (ids.filter (· = c)).length
+            if !Spec.Placement.allowed loc q then
+              r.viol s!"C18 built_packet_placement@{kind}" s!"{st.name} line {ln}: a built {kind} carries property {c}, which the specification does not allow in {loc.name}: {acc}"
+            else if n > 1 ∧ !Spec.Placement.mayRepeat loc q then
+              r.viol s!"C18 built_packet_multiplicity@{kind}" s!"{st.name} line {ln}: a built {kind} carries property {c} {n} times; the specification allows it once in {loc.name}: {acc}"
+            else r) r
+      (match loc? with
+       | some loc =>
+         let r := check loc (accPropIds acc "props") r
+         let r := if loc = .connect then check .will (accPropIds acc "wprops") r else r
+         (st.tag "built.placement.checked", r)
+       | none => (st, r))
+    | _, _ => (st, r)
+  | _ => (st, r.mdiff "parse" s!"{st.name} line {ln}: unparsable `{line.take 120}`")
 
 def codecE (st : CodecSt) (line : String) (r : Report) : CodecSt × Report :=
   let ws := words line
